@@ -96,6 +96,9 @@ LocalAltVectors == UNION { { [v |-> CtxVal(k, [i EXCEPT !.loc = LocH]), enc |-> 
                                a \in Alts(i), k \in 1..5 } : i \in IdPlain }
 \* the same logical identifier in its other form (plain <-> local with the first hash)
 Twin(i) == IF i.loc = <<>> THEN [i EXCEPT !.loc = <<9,8,7,6,5,4,3,2>>] ELSE [i EXCEPT !.loc = <<>>]
+\* every other form of the same logical identifier: plain <-> local, and local <-> local with another opaque hash
+OtherHash(h) == [k \in 1..Len(h) |-> IF k = Len(h) THEN (h[k] + 1) % 256 ELSE h[k]]
+Twins(i) == IF i.loc = <<>> THEN {Twin(i)} ELSE {Twin(i), [i EXCEPT !.loc = OtherHash(i.loc)]}
 
 \* values the format cannot express (C01: encoding must report an error, not truncate a length)
 Unencodable == { A(Rep(97, 65536)), VTuple(<<SmallInt(1), A(Rep(97, 65536))>>),
